@@ -45,30 +45,30 @@ def marker_rules(facts, rep, w, prefix=None, only=None):
         if b is None:
             rep.fail("R10.1", w.overlay, "%s implemented" % op, "missing")
             continue
-        marks = [(cb, s, tr, recv) for cb, s, tr, recv in ov.path_sites(b, ("create_file",))
-                 if ov.is_marker(recv) and ov.mentions_path_arg(recv)]
+        # (steps that sit in private helpers of the overlay are read as the operation's own, in its name space)
+        marks = [x for x in ov.deep_path_sites_x(b, ("create_file",)) if ov.is_marker(x[3]) and ov.mentions_path_arg(x[3])]
         n += 1
         rep.ob("R10.1", b.id, "%s: marker of the removed path is created" % op, len(marks) >= 1,
                "%d site(s)" % len(marks) if marks else "no creation of the marker for the operation's own path", b.span)
-        cb0 = ov.inter.code_body(b)
-        for ct, gs0, bb in ov.inter.ret_cases(b):
-            if ov.inter.case_polarity(ct) == "err":
-                continue  # a returned call result (tail call) may be Ok: it counts as a success return
-            gs = ov.guards(cb0, bb)
+        for gs, line_, _sets in ov.ok_returns(b):
+            # (a returned call result — tail call — may be Ok: it counts as a success return)
             okm = any(g[0] == "variant" and g[2] == "ok" and peel(g[1])[0] == "call" and sname(peel(g[1])[1]) == "create_file"
                       and peel(g[1])[2] and ov.is_marker(peel(g[1])[2][0]) and ov.mentions_path_arg(peel(g[1])[2][0]) for g in gs)
             n += 1
             rep.ob("R10.1", b.id, "%s: Ok only after the marker was created successfully" % op, okm, "" if okm else
                    "an Ok return is not dominated by a successful creation of the path's marker: the deletion of a "
-                   "lower-layer entry does not persist", cb0.blocks[bb].term.line)
+                   "lower-layer entry does not persist", line_)
         # ordering: no upper removal after marker creation
-        for cb, s, tr, recv in marks:
-            cfg = tr.cfg
-            after = cfg.reachable_from(s.bb)
+        uppers = [x for x in ov.deep_path_sites_x(b, (op,)) if ov.is_upper_plain(x[3])]
+        for cb, s, tr, recv, gs_, anchor, _sf in marks:
+            acb, abb = anchor
+            after = get_tracer(facts, acb).cfg.reachable_from(abb)
             bad = None
-            for cb2, s2, tr2, recv2 in ov.path_sites(b, (op,)):
-                if cb2 is cb and s2.bb in after and s2.bb != s.bb and ov.is_upper_plain(recv2):
+            for cb2, s2, tr2, recv2, gs2, anchor2, _sf2 in uppers:
+                if anchor2[0] is acb and anchor2[1] in after and anchor2[1] != abb:
                     bad = s2
+                elif anchor2 == anchor and cb2 is cb and s2.bb != s.bb and s2.bb in tr.cfg.reachable_from(s.bb):
+                    bad = s2        # both inside the same helper call
             n += 1
             rep.ob("R10.1", b.id, "%s: marker written after the upper copy was removed" % op, bad is None, "" if bad is None else
                    "the upper-layer removal at %s can run after the marker was already written: if it fails, the call "
